@@ -117,6 +117,13 @@ pub fn parse_swift_chars(input: &str, field_name: &str) -> Result<String, ParseE
     // Common special chars: / - ? : ( ) . , ' + { } SPACE % & * ; < = > @ [ ] _ $ ! " # |
     const SWIFT_SPECIAL: &str = "/-?:().,'+{} %&*;<=>@[]_$!\"#|";
 
+    // Every x-format component and every line of a multi-line field has at least one character
+    if input.is_empty() {
+        return Err(ParseError::InvalidFormat {
+            message: format!("{} must not be empty", field_name),
+        });
+    }
+
     if !input
         .chars()
         .all(|c| c.is_ascii_alphanumeric() || SWIFT_SPECIAL.contains(c))
